@@ -8,3 +8,4 @@ INVARIANT InvLenIsWireWidth
 INVARIANT InvTotal
 INVARIANT InvOptionsOnOwnLeaf
 INVARIANT CursorIsEnd
+INVARIANT RefusedIffUnlayable
